@@ -229,9 +229,14 @@ StepQuiesce(e) ==
                                          \/ ~(ss[s].dispAfter \subseteq Range(ss[s].sent)) )
          missing(s) == IF Len(ss[s].sent) = 0 /\ ss[s].from = 0 THEN ss[s].dispAfter
                        ELSE SS!Missing(ss[s].sent, ss[s].from, g.head)
+         overtaken(s, m) == /\ m \in DOMAIN g.dpos /\ m \notin ss[s].dispAfter
+                            /\ \E r \in Range(ss[s].sent) : r < m /\ r \in ss[s].dispAfter /\ g.dpos[m] < Get(g.dpos, r, 0)
          shape(s) == IF ss[s].orphan THEN "callback-removed-by-predecessor"
                      ELSE IF g.backend = "mem" /\ ss[s].evict THEN "memdb-eviction-shifts-cursor"
                      ELSE IF missing(s) # {} /\ missing(s) \subseteq ss[s].skipped THEN "put-between-scan-and-register"
+                     \* a later round was dispatched before this stream registered, an earlier one afterwards
+                     ELSE IF missing(s) # {} /\ \A m \in missing(s) : m \in ss[s].skipped \/ overtaken(s, m)
+                       THEN "concurrent-puts-dispatch-reordered"
                      ELSE "other"
          A1 == {Alarm("LiveComplete", [ev |-> "Quiesce"], shape(s), "stream is open and healthy but has not received every stored round")
                   : s \in {t \in check : bad(t)}}
